@@ -3,6 +3,7 @@ import MgProof.C13.LemmasPoll
 import MgProof.C13.LemmasSelect
 import MgProof.C13.LemmasEpoll
 import MgProof.C13.LemmasReady
+import MgProof.C13.LemmasEpollReady
 /-!
 # C13 — property theorems (event loop callback life-cycle; select, poll, epoll agree)
 
@@ -180,6 +181,159 @@ theorem select_never_sleeps_on_pending (hints : Nat) (legacy : Bool) (kinds : Li
   intro hh
   simp [St.events] at hh
   exact h1 hh
+
+/-- **Clause 2, epoll** — under the documented contract of an `EPOLLET` consumer (every read
+callback drains its descriptor) the edge-triggered back-end never goes to sleep while a
+registered context is readable either: every readable registered context is in the kernel's
+ready list or still in the batch being dispatched. Every script whose read modes are `all`,
+every `hints_max_fd` (truncated batches included), actions of every kind in every callback. -/
+theorem epoll_never_sleeps_on_pending (hints : Nat) (legacy : Bool) (kinds : List Kind)
+    (pre : List Act) (sc : Script) (hdrain : ∀ c, sc.rmode c = .all) (fuel : Nat) :
+    Ev.sleep true ∉ (scenario .epoll hints legacy kinds pre sc fuel).events := by
+  rw [run_events]
+  have e0 : EInv none [] (initSt .epoll hints legacy kinds) :=
+    ⟨rfl, by simp [initSt], by simp [initSt], by intro c; simp [initSt, HupEof], by simp [initSt, NoLost]⟩
+  have h0 : EInv none [] (runActs pre (initSt .epoll hints legacy kinds)) := runActs_einv pre e0
+  have i0 : Inv none (runActs pre (initSt .epoll hints legacy kinds)) :=
+    runActs_inv pre (initSt_inv _ _ _ _)
+  have h1 : NoLost (loopEnd .epoll hints legacy kinds pre sc fuel).trace := by
+    unfold loopEnd backendRun
+    rw [h0.backend]
+    exact epLoop_einv sc hdrain fuel (epStart_einv h0) (epStart_inv i0)
+  intro hh
+  simp [St.events] at hh
+  exact h1 hh
+
+/-- the contract is needed: a read callback that takes one byte of two leaves the second byte
+unannounced (no new edge), and the loop sleeps on it -/
+def lazyScript : Script :=
+  { onRead := fun _ _ _ => [], onClose := fun _ => [], onWake := fun _ => [],
+    onIdle := fun _ => [.write 0 2], nIdle := 1, rmode := fun _ => .upto 1 }
+
+theorem epoll_partial_read_sleeps_on_pending :
+    Ev.sleep true ∈ (scenario .epoll 4 false [.pipe] [.add 0] lazyScript 100).events := by decide
+
+/-! ### clause 4: adding, rejecting and removing a context never disturbs the others -/
+
+/-- **Isolation, rejected add** (poll, `nfd == capacity`): nothing but the answer is changed —
+the linked-list append is rolled back, no table, no descriptor, no flag is touched. -/
+theorem add_rejected_changes_nothing {s : St} {c : Nat} (hb : s.backend = .poll)
+    (hfull : s.ptab.length = s.hints) (ht : s.tried c = false) (hc : c < s.nds) :
+    addCtx c s = emit (.addRej c) { s with tried := upd s.tried c true } := by
+  unfold addCtx
+  simp [ht, hc, hb, hfull]
+
+/-- **Isolation, accepted add**: for every other context `c'` membership in `ctx_list`, in the
+poll table, in `allset`, in the epoll registration and in the epoll ready list is unchanged, and
+no descriptor state, closed flag or delivered-byte count changes at all. -/
+theorem add_isolation (s : St) (c : Nat) :
+    (addCtx c s).ds = s.ds ∧ (addCtx c s).flag = s.flag ∧ (addCtx c s).delivered = s.delivered ∧
+    (addCtx c s).evc = s.evc ∧ (addCtx c s).toExit = s.toExit ∧
+    ∀ c', c' ≠ c →
+      (c' ∈ (addCtx c s).ctxList ↔ c' ∈ s.ctxList) ∧
+      (∀ e : PEnt, e.node = c' → (e ∈ (addCtx c s).ptab ↔ e ∈ s.ptab)) ∧
+      (c' ∈ (addCtx c s).allset ↔ c' ∈ s.allset) ∧
+      (c' ∈ (addCtx c s).epReg ↔ c' ∈ s.epReg) ∧
+      (Src.ctx c' ∈ (addCtx c s).armed ↔ Src.ctx c' ∈ s.armed) := by
+  unfold addCtx
+  split
+  · simp
+  · have hptab : ∀ (c' : Nat) (e : PEnt), c' ≠ c → e.node = c' →
+        (e ∈ s.ptab ++ [{ node := c, fd := c }] ↔ e ∈ s.ptab) := by
+      intro c' e hne he
+      simp only [List.mem_append, List.mem_singleton]
+      constructor
+      · rintro (h | h)
+        · exact h
+        · subst h; exact absurd he.symm hne
+      · exact Or.inl
+    cases hb : s.backend with
+    | select =>
+      refine ⟨rfl, rfl, rfl, rfl, rfl, ?_⟩
+      intro c' hne
+      refine ⟨?_, ?_, ?_, ?_, ?_⟩
+      · simp [emit, selSetFd, hne]
+      · intro e _; simp [emit, selSetFd]
+      · simp only [emit, selSetFd]; split <;> simp [hne]
+      · simp [emit, selSetFd]
+      · simp [emit, selSetFd]
+    | poll =>
+      simp only []
+      split
+      · refine ⟨rfl, rfl, rfl, rfl, rfl, ?_⟩
+        intro c' hne
+        refine ⟨?_, ?_, ?_, ?_, ?_⟩ <;> simp [emit]
+      · refine ⟨rfl, rfl, rfl, rfl, rfl, ?_⟩
+        intro c' hne
+        refine ⟨?_, ?_, ?_, ?_, ?_⟩
+        · simp [emit, hne]
+        · intro e he; exact hptab c' e hne he
+        · simp [emit]
+        · simp [emit]
+        · simp [emit]
+    | epoll =>
+      simp only []
+      split
+      · simp only [emit, arm]
+        split
+        · refine ⟨rfl, rfl, rfl, rfl, rfl, ?_⟩
+          intro c' hne
+          refine ⟨?_, ?_, ?_, ?_, ?_⟩
+          · simp [hne]
+          · intro e _; simp
+          · simp
+          · simp [hne]
+          · simp [hne]
+        · refine ⟨rfl, rfl, rfl, rfl, rfl, ?_⟩
+          intro c' hne
+          refine ⟨?_, ?_, ?_, ?_, ?_⟩
+          · simp [hne]
+          · intro e _; simp
+          · simp
+          · simp [hne]
+          · simp
+      · refine ⟨rfl, rfl, rfl, rfl, rfl, ?_⟩
+        intro c' hne
+        refine ⟨?_, ?_, ?_, ?_, ?_⟩
+        · simp [emit, hne]
+        · intro e _; simp [emit]
+        · simp [emit]
+        · simp [emit, hne]
+        · simp [emit]
+
+/-- **Isolation, poll removal (swap-with-last lemma)**: unregistering slot `i` keeps every
+other table entry (with its fd and its revents), removes every entry of the closed context,
+and keeps every other context in `ctx_list`. -/
+theorem poll_remove_isolation {pend : Option Nat} {s : St} (h : Inv pend s) {i : Nat} {e : PEnt}
+    (hi : s.ptab[i]? = some e) :
+    (∀ x : PEnt, x.node ≠ e.node → (x ∈ (pollRemove i e s).ptab ↔ x ∈ s.ptab)) ∧
+    (∀ x ∈ (pollRemove i e s).ptab, x.node ≠ e.node) ∧
+    (∀ c, c ≠ e.node → (c ∈ (pollRemove i e s).ctxList ↔ c ∈ s.ctxList)) ∧
+    e.node ∉ (pollRemove i e s).ctxList ∧
+    (pollRemove i e s).ds = s.ds ∧ (pollRemove i e s).flag = s.flag ∧
+    (pollRemove i e s).delivered = s.delivered := by
+  obtain ⟨_, f2, f3⟩ := swapRemove_facts (·.node) s.ptab i e hi h.pNodup
+  refine ⟨fun x hx => ⟨fun hm => (f2 x hm).1, fun hm => f3 x hm hx⟩, fun x hm => (f2 x hm).2, ?_, ?_,
+    rfl, rfl, rfl⟩
+  · intro c hne
+    exact List.mem_erase_of_ne hne
+  · exact h.nodupL.not_mem_erase
+
+/-- **Isolation, epoll removal** (`EPOLL_CTL_DEL`): every other registration and every other
+pending event stays. -/
+theorem epoll_remove_isolation (s : St) (c : Nat) :
+    (∀ c', c' ≠ c → (c' ∈ (epDel c s).epReg ↔ c' ∈ s.epReg)) ∧
+    (∀ x : Src, x ≠ .ctx c → (x ∈ (epDel c s).armed ↔ x ∈ s.armed)) ∧
+    (epDel c s).ds = s.ds ∧ (epDel c s).ctxList = s.ctxList := by
+  refine ⟨fun c' hne => List.mem_erase_of_ne hne, fun x hne => List.mem_erase_of_ne hne, rfl, rfl⟩
+
+/-- **Isolation, select (rebuild lemma)**: after a complete dispatch — whatever the callbacks
+removed or added — `allset` contains every context of `ctx_list`, `nfds` is at least its fd,
+and the eventfd is in the set. -/
+theorem select_rebuild (sc : Script) {s : St} (h : SelC s) (hi : Inv none s) :
+    (selDispatch sc s).allsig = true ∧
+    ∀ c ∈ (selDispatch sc s).ctxList, c ∈ (selDispatch sc s).allset ∧ fdOf c ≤ (selDispatch sc s).nfds :=
+  ⟨(selDispatch_c sc h hi).allsig, (selDispatch_c sc h hi).cover⟩
 
 /-! ### non-vacuity: a concrete script on which all the events above occur -/
 
